@@ -115,6 +115,28 @@ func ruleConfigs(c *Ctx) *RuleResult {
 			r.fail("noquotas-method-not-noop:"+name, p.Pos(f.Pos()), fmt.Sprintf("in the noquotas build (*runtimeContextManager).%s contains %s: the build option would change behaviour, not just skip accounting", name, bad))
 		}
 	}
+	// the query methods answer with constants: a context without quotas has no state of
+	// its own that an answer could depend on (GCPolicy in particular: every context shares
+	// the root's pool, so CallContext must never take a context for an isolated one)
+	for _, name := range []string{"HardLimits", "SoftLimits", "UsedResources", "Status", "RequiredFlags", "CheckRequiredFlags", "Due", "GCPolicy"} {
+		f := p.Func("runtime", "(*runtimeContextManager)."+name)
+		if f == nil {
+			r.fail("noquotas-method-missing:"+name, "runtime/runtimecontextmanager_noquotas.go", "the noquotas context manager has no method "+name)
+			continue
+		}
+		reads := ""
+		forEachInstr(f, func(ins ssa.Instruction) {
+			if fa, ok := ins.(*ssa.FieldAddr); ok && len(f.Params) > 0 && fa.X == ssa.Value(f.Params[0]) {
+				_, _, fld := fieldOfAddr(fa)
+				reads = fld
+			}
+		})
+		if reads == "" {
+			r.ok("(b) noquotas " + name + " answers with a constant")
+		} else {
+			r.fail("noquotas-query-reads-state:"+name, p.Pos(f.Pos()), fmt.Sprintf("in the noquotas build (*runtimeContextManager).%s reads the field %s of the manager: its answer can now differ from context to context, which the build without quotas has no means to keep consistent (a child context copies its parent)", name, reads))
+		}
+	}
 	// PushContext / PopContext shape
 	push := p.Func("runtime", "(*runtimeContextManager).PushContext")
 	pop := p.Func("runtime", "(*runtimeContextManager).PopContext")
